@@ -514,9 +514,14 @@ class DataLoader(object):
                     not require_p1_time and not require_system_time and max_bytes is None and
                     source_ids == self.reader.get_available_source_ids()):
                 reader_max_messages_applied = True
-                if max_messages >= 0:
-                    self.reader.filter_in_place(slice(None, max_messages))
-                else:
+                # For the first N messages (N > 0) the index is left as it is: the message count below ends the read
+                # after N messages, and it only counts messages that were actually returned. The available source
+                # identifiers are sampled from the beginning of the log, so a message may still be rejected when it is
+                # read (an identifier that first shows up later) and cutting the index to N entries would return fewer
+                # than N messages.
+                if max_messages == 0:
+                    self.reader.filter_in_place(slice(None, 0))
+                elif max_messages < 0:
                     self.reader.filter_in_place(slice(max_messages, None))
 
         # When the user requests max_messages < 0, they would like the _last_ N messages in the file. If the reader does
